@@ -77,7 +77,21 @@ fn operands<R: Rng>(rng: &mut R, n: u32, es: u32, op: &str) -> Vec<u64> {
                 _ => rng.gen::<u64>(),
             };
             let c = gen::from_scale(n, es, sc, fr);
-            let (a, b, c) = (sgn(a, rng.gen()), sgn(b, rng.gen()), sgn(c, rng.gen()));
+            let (a, b, mut c) = (sgn(a, rng.gen()), sgn(b, rng.gen()), sgn(c, rng.gen()));
+            // one tuple in eight: the addend cancels the product to within an ulp (c = the truncation of a*b, signs
+            // arranged so that the operation subtracts): the result is the tiny residual a*b - c
+            if rng.gen_range(0..8) == 0 {
+                let p = gen::to_f64_exact(n, es, a & gen::mask(n)).abs() * gen::to_f64_exact(n, es, b & gen::mask(n)).abs();
+                if p.is_finite() && p > 0.0 {
+                    let bits = p.to_bits();
+                    let sc = ((bits >> 52) & 0x7ff) as i32 - 1023;
+                    let t = gen::from_scale(n, es, sc, bits << 12);
+                    // effective sign of the product vs the addend must differ
+                    let neg_ab = (a >> (n - 1)) & 1 != (b >> (n - 1)) & 1;
+                    let want_c_neg = match op { "mul_add" => !neg_ab, "mul_sub" => neg_ab, _ => neg_ab };
+                    c = if want_c_neg { gen::neg(n, t) } else { t };
+                }
+            }
             if op == "sub_product" { vec![c, a, b] } else { vec![a, b, c] }
         }
     }
